@@ -192,6 +192,70 @@ theorem mkprofDb_copied_relation (now : Nat) (src dst d : Dir) (p : DbParams) (s
     · simp only [hf, if_false]
       exact L.readRow_fmt newF _ (L.remake_proper oldF newF r hpr)
 
+/-- the same for a SKELETON (`skeleton=True`): "a skeleton contains only the non-empty core relations" —
+a copied relation is kept, with exactly the same rows, iff it is a core relation and at least one row
+was selected; otherwise it has no file at all. -/
+theorem mkprofDb_copied_relation_skeleton (now : Nat) (src dst d : Dir) (p : DbParams) (ss : Schema)
+    (hs : src.schema = some ss) (hnd : (p.schema.getD ss).names.Nodup)
+    (hrun : mkprofDb now src dst p = (d, none)) (hsk : p.skeleton = true)
+    (t : Name) (oldF newF : List Field) (rows : List Rec)
+    (ht : (t, newF) ∈ p.schema.getD ss)
+    (hcopy : p.full = true ∨ t ∈ coreFiles)
+    (hold : ss.lookup t = some oldF) (hread : (src.files t).read = some rows) :
+    ∃ sel, selectRows p.sel t rows = .ok sel ∧ List.Sublist sel rows ∧
+      (coreFiles.contains t = true → sel ≠ [] →
+        (d.files t).read = some (sel.map (fun r =>
+          List.zipWith defaulted newF (if oldF = newF then r else remake oldF newF r)))) ∧
+      ((coreFiles.contains t = false ∨ sel = []) → d.files t = {}) := by
+  obtain ⟨_, recs, h1, _, h3⟩ := mkprofDb_relation now src dst d p ss hs hnd hrun t newF ht
+  have hcopy' : p.full = true ∧ t ∈ (p.schema.getD ss).names ∨ p.full = false ∧ t ∈ coreFiles := by
+    cases hfull : p.full with
+    | true => exact Or.inl ⟨rfl, L.mem_names ht⟩
+    | false =>
+      rcases hcopy with h | h
+      · simp [hfull] at h
+      · exact Or.inr ⟨rfl, h⟩
+  rw [dbRecords_copied ss src.files p _ t oldF newF rows hcopy' hold hread] at h1
+  cases hsel : selectRows p.sel t rows with
+  | error e => simp [hsel] at h1
+  | ok sel =>
+    simp only [hsel, Except.ok.injEq] at h1
+    have hprop := L.read_proper hread
+    have hsub : List.Sublist sel rows := by
+      unfold selectRows at hsel
+      split at hsel
+      · cases hsel; exact List.Sublist.refl _
+      · split at hsel
+        · rename_i ks _
+          cases hsel
+          exact (filter_sublist rows ks).trans (L.kept_sublist rows ks)
+        · cases hsel; exact List.Sublist.refl _
+        · cases hsel
+    refine ⟨sel, rfl, hsub, ?_, ?_⟩
+    · intro hcore hne
+      have hrne : (recs.map (List.zipWith fmtCell newF)).isEmpty = false := by
+        rw [← h1]
+        cases sel with
+        | nil => exact absurd rfl hne
+        | cons a as => simp
+      rw [h3, hsk, L.keeps_skeleton ht, hcore, L.cleanupOne_skeleton_keep _ _ _ hrne, L.read_writeRel, ← h1]
+      simp only [List.map_map, Option.some.injEq]
+      apply List.map_congr_left
+      intro r hr
+      have hpr : ∀ c ∈ r, Proper c := hprop r (hsub.subset hr)
+      simp only [Function.comp]
+      by_cases hf : oldF = newF
+      · simp only [hf, if_true]
+        exact L.readRow_fmt newF r hpr
+      · simp only [hf, if_false]
+        exact L.readRow_fmt newF _ (L.remake_proper oldF newF r hpr)
+    · intro hno
+      rw [h3, hsk, L.keeps_skeleton ht]
+      apply L.cleanupOne_skeleton_drop
+      rcases hno with hc | he
+      · exact Or.inl hc
+      · right; rw [← h1, he]; rfl
+
 /-- no filter: all rows. -/
 theorem selectRows_no_filter (t : Name) (rows : List Rec) : selectRows none t rows = .ok rows := rfl
 
@@ -403,15 +467,80 @@ theorem refresh_preserves_rows (now : Nat) (dst d : Dir) (schema : Option Schema
         intro r hr
         exact L.readRow_fmt newF r (hprop r hr)
 
-/-- the default is applied once: refreshing an already refreshed cell changes nothing. -/
-theorem defaulted_idem (f : Field) (c : Cell) : defaulted f (defaulted f c) = defaulted f c := by
-  cases c with
-  | some t => rfl
+/-- the refresh as a SKELETON (`skeleton=True`): a relation is kept, with exactly its previous rows, iff
+it is a core relation and had at least one row; otherwise it has no file afterwards. -/
+theorem refresh_preserves_rows_skeleton (now : Nat) (dst d : Dir) (schema : Option Schema) (gzip : Bool)
+    (old : Schema) (hs : dst.schema = some old) (hnd : (schema.getD old).names.Nodup)
+    (hrun : mkprofRefresh now dst schema gzip true = (d, none))
+    (t : Name) (newF : List Field) (ht : (t, newF) ∈ schema.getD old) :
+    ∃ prev : List Rec,
+      prev = (match old.lookup t with
+              | none => []
+              | some oldF => (((dst.files t).read).getD []).map (fun r =>
+                  if schema.isSome then remake oldF newF r else r)) ∧
+      (coreFiles.contains t = true → prev ≠ [] →
+        (d.files t).read = some (prev.map (List.zipWith defaulted newF))) ∧
+      ((coreFiles.contains t = false ∨ prev = []) → d.files t = {}) := by
+  unfold mkprofRefresh at hrun
+  simp only [hs] at hrun
+  generalize hw : writeLoop now gzip (refreshRecords old schema.isSome) dst.files (schema.getD old) = w at hrun
+  obtain ⟨fs, e⟩ := w
+  cases e with
+  | some e => simp at hrun
   | none =>
-    simp only [defaulted]
-    cases h : readCell f.default with
-    | none => simp
-    | some t => rfl
+    simp only [Prod.mk.injEq, and_true] at hrun
+    subst hrun
+    have hl := L.writeLoop_ok now gzip (refreshRecords old schema.isSome)
+      (L.refreshRecords_local old schema.isSome) _ _ _ hnd hw
+    obtain ⟨recs, rows, h1, h2, h3⟩ := hl.2 t newF ht
+    have hst := L.stage_ok h2
+    have hmem : (schema.getD old).names.contains t = true := L.contains_names ht
+    have hrecs : recs = (match old.lookup t with
+              | none => []
+              | some oldF => (((dst.files t).read).getD []).map (fun r =>
+                  if schema.isSome then remake oldF newF r else r)) := by
+      unfold refreshRecords at h1
+      cases hold : old.lookup t with
+      | none => simp only [hold] at h1; cases h1; rfl
+      | some oldF =>
+        simp only [hold, Except.ok.injEq] at h1
+        rw [← h1]
+        cases schema.isSome <;> simp
+    have hprop : ∀ r ∈ recs, ∀ c ∈ r, Proper c := by
+      have hp0 : ∀ row ∈ ((dst.files t).read).getD [], ∀ c ∈ row, Proper c := by
+        cases hr : (dst.files t).read with
+        | none => simp
+        | some rows0 => simpa using L.read_proper hr
+      rw [hrecs]
+      cases hold : old.lookup t with
+      | none => simp
+      | some oldF =>
+        intro r hr
+        simp only [List.mem_map] at hr
+        obtain ⟨r0, hr0, rfl⟩ := hr
+        cases schema.isSome with
+        | true => exact L.remake_proper oldF newF r0 (hp0 r0 hr0)
+        | false => exact hp0 r0 hr0
+    refine ⟨recs, hrecs, ?_, ?_⟩
+    · intro hcore hne
+      have hrne : rows.isEmpty = false := by
+        rw [hst.1]
+        cases recs with
+        | nil => exact absurd rfl hne
+        | cons a as => simp
+      simp only [cleanup, hmem, Bool.true_or, if_true, h3, L.keeps_skeleton ht, hcore,
+        L.cleanupOne_skeleton_keep _ _ _ hrne, L.read_writeRel]
+      rw [hst.1, List.map_map]
+      simp only [Option.some.injEq]
+      apply List.map_congr_left
+      intro r hr
+      exact L.readRow_fmt newF r (hprop r hr)
+    · intro hno
+      simp only [cleanup, hmem, Bool.true_or, if_true, h3, L.keeps_skeleton ht]
+      apply L.cleanupOne_skeleton_drop
+      rcases hno with hc | he
+      · exact Or.inl hc
+      · right; rw [hst.1, he]; rfl
 
 /-! ## "every field value unchanged apart from columns added or dropped by a different target schema" -/
 
@@ -536,44 +665,21 @@ theorem wordCount_words (lead : Text) (ps : List (Text × Text)) (hlead : IsBlan
     rw [L.wc_blank (c :: cs) _ false hlead (by simp)]
     exact L.wc_assemble ps hps hsep
 
-/-- the `k`-th sentence line (counting from 0, first identifier `i`) gives the documented item -/
-theorem plainRecs_get (fields : List Field) : ∀ (lines : List Text) (i k : Nat) (hk : k < lines.length),
-    (plainRecs fields i lines)[k]? = some (fields.map (plainVal (i + k) lines[k]))
-  | [], _, _, hk => by simp at hk
-  | l :: ls, i, 0, _ => by simp [plainRecs]
-  | l :: ls, i, k + 1, hk => by
-    have := plainRecs_get fields ls (i + 1) k (by simpa using hk)
-    simp only [plainRecs, List.getElem?_cons_succ, List.getElem_cons_succ, this]
-    congr 3
-    omega
-
-theorem plainRecs_length (fields : List Field) : ∀ (lines : List Text) (i : Nat),
-    (plainRecs fields i lines).length = lines.length
-  | [], _ => rfl
-  | _ :: ls, i => by simp [plainRecs, plainRecs_length fields ls (i + 1)]
-
-/-- what is stored and read back for an item: per field the text of its value (`None` ⇒ default),
-an empty text reading back as `None` -/
-theorem item_cells (fields : List Field) (g : Field → LVal) :
-    readRow (encodeL fields (fields.map g)) = fields.map (fun f => readCell ((g f).text f)) := by
-  unfold encodeL readRow
-  induction fields with
-  | nil => rfl
-  | cons f fs ih =>
-    simp only [List.map_cons, List.zipWith_cons_cons, List.cons.injEq, true_and]
-    exact ih
-
 /-- sentence lines without delimiter never fail, and `item` holds exactly the documented items: one
 per line, in order, identifiers 1, 2, …, the `*` mark turned into `i-wf = 0` and removed, `i-length`
 the word count (for whichever of these fields the schema's `item` has; other fields get their
-default). -/
+default): the `k`-th row read back is, field by field, the stored text of `plainVal (1 + k) line_k`. -/
 theorem lines_plain_exact (now : Nat) (dst : Dir) (sch : Schema) (delim : Option Text)
     (lines : List Text) (gzip : Bool) (fields : List Field)
     (hd : Splitter.ofDelim delim = .plain) (hitem : ("item", fields) ∈ sch) (hnd : sch.names.Nodup)
     (hf : fields ≠ []) :
     ∃ d, mkprofLines now dst (some sch) delim lines gzip false = (d, none) ∧
       (d.files "item").read =
-        some ((plainRecs fields 1 lines).map (fun r => readRow (encodeL fields r))) := by
+        some ((plainRecs fields 1 lines).map (fun r => readRow (encodeL fields r))) ∧
+      ((plainRecs fields 1 lines).map (fun r => readRow (encodeL fields r))).length = lines.length ∧
+      ∀ (k : Nat) (hk : k < lines.length),
+        ((plainRecs fields 1 lines).map (fun r => readRow (encodeL fields r)))[k]? =
+          some (fields.map (fun f => readCell ((plainVal (1 + k) lines[k] f).text f))) := by
   have hlk : sch.lookup "item" = some fields := L.lookup_of_mem sch "item" fields hnd hitem
   have hfe : fields.isEmpty = false := by cases fields <;> simp_all
   unfold mkprofLines
@@ -582,9 +688,12 @@ theorem lines_plain_exact (now : Nat) (dst : Dir) (sch : Schema) (delim : Option
   | cons s0 srest =>
     simp only [hd, makeSplit, hlk, hfe, Bool.false_eq_true, if_false,
       L.linesLoop_plain fields lines 1 [] (by simp)]
-    refine ⟨_, rfl, ?_⟩
-    simp only [cleanup, L.contains_names hitem, Bool.true_or, if_true, L.keeps_plain hitem,
-      L.cleanupOne_keep, Files.set, L.read_writeRel, List.map_map, Function.comp_def]
+    refine ⟨_, rfl, ?_, by simp [L.plainRecs_length], ?_⟩
+    · simp only [cleanup, L.contains_names hitem, Bool.true_or, if_true, L.keeps_plain hitem,
+        L.cleanupOne_keep, Files.set, L.read_writeRel, List.map_map, Function.comp_def]
+    · intro k hk
+      rw [List.getElem?_map, L.plainRecs_get fields lines 1 k hk]
+      simp only [Option.map_some, L.item_cells]
 
 /-- any text input (plain or delimited): if `mkprof` succeeds, `item` holds exactly the documented
 item of every data line after the header, in order, and — when `item` has an `i-id` field — the
@@ -923,7 +1032,7 @@ theorem c12_pins :
     ∧ c12QnameResolver =
       ["#True", "(key|reverse)", "colname", "return", "<code resolve>", "#None", ".", "#0"]
     ∧ c12ConditionFields =
-      ["#None", "(and|or)", "not", "#0", "#1"]
+      ["#None", "(and|or)", "not", "#0", "#1", "|", "<code <genexpr>>", "#None"]
     ∧ c12ExpectedType =
       ["#None", ":string", ":integer", ":float", ":date"]
     ∧ c12ConditionFunction =
